@@ -9,29 +9,43 @@ from concurrent.futures import ThreadPoolExecutor
 
 import lv
 
+# several grammars per verdict: the order and mix of errors and warnings must not matter
 TEXTS = {
-    'clean': "token A B;\nstart s;\ns: A B;\n",
-    'warnings': "token A B C;\nstart s;\ns: A B;\n",
-    'syntax': "token A B;\nstart s;\ns: A ( B;\n",
-    'semantic': "token A B;\nstart s;\ns: A C;\n",
+    'clean': ["token A B;\nstart s;\ns: A B;\n",
+              "token A B='b';\nskip B;\nstart s;\ns: t*;\nt: A;\n"],
+    'warnings': ["token A B C;\nstart s;\ns: A B;\n",
+                 "token A B C D;\nstart s;\ns: A B;\nu: A;\n",
+                 "token A;\nstart s;\ns: A e;\ne: ;\n"],
+    'syntax': ["token A B;\nstart s;\ns: A ( B;\n",
+               "token A B C;\nstart s;\ns: A B;\nt: A ;;\n",
+               "token A B;\nstart s\ns: A B;\n"],
+    'semantic': ["token A B;\nstart s;\ns: A C;\n",
+                 # LL(1) conflict (error) reported before the unused token (warning)
+                 "token A B C;\nstart s;\ns: A B | A;\n",
+                 # warning first, error last
+                 "token A B C;\nstart s;\ns: A B;\nt: A | A;\nstart t;\n",
+                 "token A B;\nstart s;\ns: s A | B;\n",
+                 "token A B C;\nstart s;\ns: [A] A u;\nu: B;\nv: B;\n"],
 }
 
 
 def formatted_variants(texts):
     """for each verdict a fixed point of the formatter and a text that is not one"""
     import json
-    inp = ''.join(json.dumps(t) + '\n' for t in texts.values())
+    flat = [(k, t) for k, ts in texts.items() for t in ts]
+    inp = ''.join(json.dumps(t) + '\n' for k, t in flat)
     r = subprocess.run([lv.HARNESS_BIN, 'front'], input=inp, stdout=subprocess.PIPE, stderr=subprocess.PIPE, text=True, timeout=120)
     outs = [json.loads(l) for l in r.stdout.split('\n') if l.strip()]
     res = {}
-    for (k, t), o in zip(texts.items(), outs):
+    for (k, t), o in zip(flat, outs):
         f = o.get('format')
         f2 = o.get('format2')
         if not isinstance(f, str) or f2 != f:
             raise RuntimeError('cannot build a formatted variant for verdict %s: %r' % (k, o.get('format')))
-        res[k] = {True: f, False: t.replace(' ', '   ', 1) if t.replace(' ', '   ', 1) != f else t + '\n\n'}
-        if res[k][False] == f:
+        v = {True: f, False: t.replace(' ', '   ', 1) if t.replace(' ', '   ', 1) != f else t + '\n\n'}
+        if v[False] == f:
             raise RuntimeError('unformatted variant equals the formatted one')
+        res.setdefault(k, []).append(v)
     return res
 
 
@@ -55,7 +69,8 @@ def run_row(args):
     os.makedirs(os.path.join(root, 'cwd'))
     os.makedirs(os.path.join(root, 'out'))
     if verdict != 'unreadable':
-        open(os.path.join(root, 'src', 'g.llw'), 'w').write(variants[verdict][bool(fmt)])
+        vs = variants[verdict]
+        open(os.path.join(root, 'src', 'g.llw'), 'w').write(vs[i % len(vs)][bool(fmt)])
     if lx:
         open(os.path.join(root, 'src', 'lexer.rs'), 'w').write('// hand edited lexer\n')
     if ps:
@@ -94,7 +109,7 @@ def run_row(args):
     shutil.rmtree(root, ignore_errors=True)
     code = r.returncode
     ok = (eff == set(want_effects)) and (str(code) == want_exit)
-    return ok, {'cmd': ' '.join(cmd[1:]), 'verdict': verdict, 'lexer_exists': bool(lx), 'parser_exists': bool(ps), 'out_writable': bool(ow),
+    return ok, {'cmd': ' '.join(cmd[1:]), 'verdict': verdict, 'grammar': (variants[verdict][i % len(variants[verdict])][bool(fmt)] if verdict != 'unreadable' else None), 'lexer_exists': bool(lx), 'parser_exists': bool(ps), 'out_writable': bool(ow),
                 'formatted': bool(fmt), 'observed_effects': sorted(eff), 'model_effects': sorted(want_effects),
                 'observed_exit': code, 'model_exit': want_exit, 'stderr': r.stderr[-300:]}
 
